@@ -212,8 +212,20 @@ def lean_compile_one(workdir: pathlib.Path, name: str, timeout: int = 1200) -> L
     return LeanResult(name, ok, out, time.time() - t0)
 
 
+def _prune_cache(limit: int = 300) -> None:
+    try:
+        ents = [d for d in (WORK / "cache").iterdir() if d.is_dir()]
+        if len(ents) > limit:
+            ents.sort(key=lambda d: d.stat().st_mtime)
+            for d in ents[: len(ents) - limit // 2]:
+                shutil.rmtree(d, ignore_errors=True)
+    except OSError:
+        pass
+
+
 def lean_compile(workdir: pathlib.Path, layers: list[list[str]], timeout: int = 1200) -> dict[str, LeanResult]:
     """Compile modules layer by layer (modules of one layer in parallel)."""
+    _prune_cache()
     res: dict[str, LeanResult] = {}
     for layer in layers:
         with ThreadPoolExecutor(max_workers=NCPU) as ex:
